@@ -149,7 +149,7 @@ class C07(Check):
     chunksize = 8
 
     def bound_text(self, tier):
-        return "blocks of <=2 statements, 2 preference sets" if tier == "quick" else "blocks of <=2 statements x 5 preference sets; blocks of 3 over the first 16 forms x default preferences"
+        return "blocks of <=2 statements, 2 preference sets (3 incl. pull_imports_to_top=False for single statements and blocks with a multi-line import)" if tier == "quick" else "blocks of <=2 statements x 5 preference sets; blocks of 3 over the first 16 forms x default preferences"
 
     def cases(self, tier):
         out = []
@@ -179,7 +179,8 @@ class C07(Check):
                     for usages in ulists:
                         for header in (0, 1) if k < 2 else (0,):
                             out.append({"where": where, "stmts": list(stmts), "usages": list(usages), "header": header,
-                                        "nprefs": 2 if tier == "quick" else (5 if k < 3 else 1)})
+                                        "nprefs": (3 if k == 1 or any(FORMS[i][0].startswith("from xma import (") for i in stmts) else 2) if tier == "quick"
+                                        else (5 if k < 3 else 1)})
         return out
 
     def setup_worker(self):
